@@ -176,7 +176,7 @@ PROPS["C05"] = dict(
     thorough=dict(cases=40000, floor=300000, fuzz=dict(time=360)),
     level="exploration",
     level_text=("Generated destination views (C01 generator over mutable roots with known contents; array_ref roots carry ASan-poisoned guard zones) and shape-matched sources built by construction "
-                "in six layouts (plain, transposed, rotated, padded block, strided, array / array<long>); eleven assignment forms (view<-view on lvalue and rvalue destination, <-array, <-convertible "
+                "in nine layouts (plain, transposed, rotated, reversed dimension order, padded block, padded block of transposed storage, strided, inner-strided, array / array<long>); eleven assignment forms (view<-view on lvalue and rvalue destination, <-array, <-convertible "
                 "element type, elements()<-elements(), fill, swap of two views, initializer list, element_moved(), assign(iterator)); the whole root is compared afterwards: exactly the model "
                 "positions of the destination hold the source values in logical order, everything else is untouched, the root was neither rebound nor resized, the source is unchanged (or exactly "
                 "moved-from, observed with an instrumented element). Bounded exploration."),
@@ -315,7 +315,7 @@ PROPS["C15"] = dict(
     thorough=dict(cases=50000, floor=400000, fuzz=dict(time=240)),
     level="exploration",
     level_text=("Differential testing against a direct (separable, O(N n_d)) evaluation of the unnormalised DFT: D in 1..4, extents from {1..6, 8, 16, 25, 30, 36, 48} (at most 1500 elements), all 2^D masks of transformed dimensions, both signs, input and "
-                "output independently realised as contiguous view, transposed storage, rotated storage, padded sub-block or strided view; out-of-place through dft / dft_forward / dft_backward and "
+                "output independently realised as contiguous view, transposed storage, rotated storage, padded sub-block, strided view, view with a non-unit stride in the last dimension, reversed dimension order or a padded block of transposed storage; out-of-place through dft / dft_forward / dft_backward and "
                 "the in-place overload. The result matches within 1e-10 N max|x|; a distinct input's whole parent storage is bit-identical afterwards; every parent cell outside the output view is "
                 "unchanged; transforming back multiplies every element by the number of transformed points; every case then runs the other placement (in place <-> out of place) of the same geometry right away, which must be equally correct."),
     technique="differential testing against a direct DFT on generated layouts and dimension masks, whole-parent guard comparison (rapidcheck + libFuzzer)",
@@ -332,7 +332,7 @@ PROPS["C17"] = dict(
     level_text=("Round-trip testing through real Boost.Serialization text, binary and XML archives against the generating (extents, values) model, never the library's own ==: owning arrays of "
                 "int (D 0..4), double (D 2), std::string (D 1,2) and nested array<int,1> elements (D 1), extents 0..4 per dimension, optional non-zero index origins, loading array previously "
                 "empty / same extents / different extents; the loaded array must report the saved sizes and index ranges and hold the saved values in canonical order, and saving must not modify the source. "
-                "Views (contiguous, transposed / rotated storage, padded block, strided, array_ref; D 1..3): the archive of a view is byte-identical to the archive of a contiguous view holding the "
+                "Views (contiguous, transposed / rotated / reversed storage, padded block (also of transposed storage), strided in the first or in the last dimension, array_ref; D 1..3): the archive of a view is byte-identical to the archive of a contiguous view holding the "
                 "same elements, loading it into a view of another layout puts the k-th saved value in the k-th element, and every parent cell outside the destination view is unchanged."),
     technique="round-trip property testing through text/binary/XML archives against an (extents, values) model with whole-parent guard comparison for views (rapidcheck + libFuzzer)",
     rule=("case = kind (array element type x D | view D) x extents x archive x prior state / layouts x data seed; non-trivial = >= 2 elements (for view cases additionally a non-contiguous layout on "
